@@ -10,3 +10,4 @@ run mutants/revert-6c1df58-*.diff C14
 run mutants/revert-07db4ff-*.diff C06 C05
 run mutants/revert-314b466-*.diff C11
 run mutants/revert-81588e0-*.diff C12
+run mutants/revert-c3c310b-*.diff C11
